@@ -26,9 +26,11 @@ func pairs(ls [][2]string) []dto.LabelPair {
 	return out
 }
 
-// buildProto generates a protobuf exposition: histogram families whose metrics are classic
-// only (to be converted) or also carry a native histogram (never converted), gauges and
-// counters in between.  Every exemplar has a timestamp (the protobuf parser drops exemplars
+// buildProto generates a protobuf exposition: HISTOGRAM / GAUGE_HISTOGRAM families of 1-4
+// metrics, each independently classic-only, classic with native parts, or native-only, with
+// integer or float counts; gauges and counters in between.  sc.Ignore (IgnoreNativeHistograms)
+// and sc.Keep are set by the caller: with Ignore every metric is a classic histogram and must
+// be converted, without it only the metrics that have no native parts.  Every exemplar has a timestamp (the protobuf parser drops exemplars
 // without one from converted histograms on purpose, as for native histograms).
 func buildProto(r *gen.Rand, sc *scenario) (payload []byte, text string, known map[int]exm) {
 	known = map[int]exm{}
@@ -83,25 +85,70 @@ func buildProto(r *gen.Rand, sc *scenario) (payload []byte, text string, known m
 			continue
 		}
 		mf := &dto.MetricFamily{Name: name(histNames), Help: "hist", Type: dto.MetricType_HISTOGRAM}
+		if r.Chance(1, 4) {
+			mf.Type = dto.MetricType_GAUGE_HISTOGRAM
+			sc.classes["gauge-histogram"] = true
+		}
 		if r.Chance(1, 6) {
 			mf.Unit = "seconds"
 		}
-		// all metrics of a family are of one kind: with keep-classic a classic-only metric
-		// behind a native one is returned by ProtobufParser as EntryHistogram with nil
-		// histograms (a defect of the wrapped parser outside this property, see notes)
-		nativeFam := r.Chance(1, 4)
 		famTs := int64(0)
 		if r.Bool() {
 			famTs = r.Range(1, 800) * 125
 		}
-		for _, ls := range g.pickLabelSets(1 + r.Intn(3)) {
+		// 1-4 metrics, each independently classic-only (0), classic+native (1), native-only (2)
+		nm := 1 + r.Intn(4)
+		kinds := make([]int, nm)
+		for i := range kinds {
+			kinds[i] = r.Intn(3)
+			if r.Chance(1, 3) {
+				kinds[i] = 0
+			}
+		}
+		if !sc.Ignore {
+			// Without IgnoreNativeHistograms two defects of the wrapped parser (known findings
+			// of C35) would make the unconverted reference stream itself wrong: a native metric
+			// behind a classic-only one is emitted as classic series
+			// (proto-native-histogram-after-classic), and with keep-classic a classic-only metric
+			// right behind a classic+native one comes out as EntryHistogram with nil histograms
+			// (proto-histogram-entry-without-histogram).  So: native metrics first, and with
+			// keep-classic the last of them without classic buckets if classic-only ones follow.
+			var nat, cla []int
+			for _, k := range kinds {
+				if k == 0 {
+					cla = append(cla, k)
+				} else {
+					nat = append(nat, k)
+				}
+			}
+			if sc.Keep && len(nat) > 0 && len(cla) > 0 {
+				nat[len(nat)-1] = 2
+			}
+			kinds = append(nat, cla...)
+		}
+		mixed := false
+		for i := range kinds {
+			mixed = mixed || kinds[i] != kinds[0]
+		}
+		if mixed {
+			sc.classes["proto-mixed-family"] = true
+		}
+		for mi, ls := range g.pickLabelSets(nm) {
+			kind := kinds[mi]
+			sc.classes[[]string{"proto-classic-only", "proto-classic+native", "proto-native-only"}[kind]] = true
+			if mi > 0 && kind != 0 && sc.Ignore {
+				sc.classes["proto-later-metric-with-native-parts-ignored"] = true
+			}
 			h := &dto.Histogram{}
 			nb := r.Intn(6)
+			if kind == 2 {
+				nb = 0
+			}
 			pick := map[int]bool{}
 			for len(pick) < nb {
 				pick[r.Intn(len(boundPool))] = true
 			}
-			float := r.Chance(1, 5) && !nativeFam
+			float := r.Chance(1, 4)
 			c := 0.0
 			for i := range boundPool {
 				if !pick[i] {
@@ -134,7 +181,7 @@ func buildProto(r *gen.Rand, sc *scenario) (payload []byte, text string, known m
 				c += float64(r.Intn(6))
 				h.SampleCount = uint64(c)
 			}
-			if r.Chance(1, 3) {
+			if kind != 2 && r.Chance(1, 3) {
 				b := dto.Bucket{UpperBound: math.Inf(1)}
 				if float {
 					b.CumulativeCountFloat = c
@@ -153,13 +200,31 @@ func buildProto(r *gen.Rand, sc *scenario) (payload []byte, text string, known m
 			if r.Bool() {
 				h.StartTimestamp = tsProto(r.Range(1, 100) * 125)
 			}
-			if nativeFam {
-				// also a native histogram: never converted; classic series only with keep-classic
-				h.Schema = 0
-				h.ZeroThreshold = 0.001
-				h.PositiveSpan = []dto.BucketSpan{{Offset: 0, Length: 1}}
-				h.PositiveDelta = []int64{int64(c)}
-				sc.classes["native-then-classic"] = true
+			if kind != 0 {
+				// native parts: one of the three marks isNativeHistogram looks at (a span, a zero
+				// threshold, a zero count), always with a consistent span/bucket layout
+				h.Schema = int32(r.Range(0, 3))
+				switch r.Intn(3) {
+				case 0:
+					h.ZeroThreshold = 0.001
+				case 1:
+					if !float {
+						h.ZeroCount = 0 // span only
+					}
+				default:
+					h.ZeroThreshold = 0.001
+					if float {
+						h.ZeroCountFloat = 0.5
+					} else {
+						h.ZeroCount = 1
+					}
+				}
+				h.PositiveSpan = []dto.BucketSpan{{Offset: int32(r.Range(0, 3)), Length: 1}}
+				if float {
+					h.PositiveCount = []float64{c}
+				} else {
+					h.PositiveDelta = []int64{int64(c)}
+				}
 			}
 			mf.Metric = append(mf.Metric, dto.Metric{Label: pairs(ls), Histogram: h, TimestampMs: famTs})
 		}
